@@ -1,11 +1,11 @@
 """C05: every destination receives each source's records in read order."""
 import os, sys
 sys.path.insert(0, os.path.dirname(__file__))
-from funnel_common import funnel_job, funnel_conc_job, FUNNEL_RULE, FUNNEL_ASSUME
+from funnel_common import funnel_job, funnel_conc_job, funnel_shared_job, FUNNEL_RULE, FUNNEL_ASSUME
 
 PROP = {
     "lean_modules": ["ConduitModel.Props.C05"],
-    "jobs": [funnel_job("C05"), funnel_conc_job("C05")],
+    "jobs": [funnel_job("C05"), funnel_conc_job("C05"), funnel_shared_job("C05")],
     "rule": FUNNEL_RULE,
     "strength": "v2: proved — the tainted loop hands out the batch left to right exactly once (all status vectors); pass-level order "
                 "to each destination is decided by the monitor on every implementation trace + equality with the model (partial: composition not proved). v1: see Props/C05Stream when merged",
